@@ -1,7 +1,7 @@
 (* C04 - Checked join never escapes, replaces or re-roots the base path. *)
 From Coq Require Import List NArith Bool.
 Import ListNotations.
-From TP Require Import Core CoreProofs Path Unix Win Spec UnixProofs WinProofs C02Proofs C04Proofs GenJoin WinSimple WinExtend WinBare WinVerbJoin.
+From TP Require Import Core CoreProofs Path Unix Win Spec UnixProofs WinProofs C02Proofs C04Proofs GenJoin WinSimple WinExtend WinBare WinVerbJoin WinVerbBare.
 
 (* the decision: a checked push either fails, leaving the base byte-for-byte unchanged, or
    succeeds with exactly the unchecked join; which of the two is the scan over the components
@@ -96,8 +96,15 @@ Theorem C04_windows_contains_verbatim : forall (a : list N) (k : wprefix) (r p :
   exists added, Forall (fun c => k_is_normal c = true) added /\ wspec (w_push a p) = wspec a ++ added.
 Proof. exact w_push_checked_contains_verbatim. Qed.
 Print Assumptions C04_windows_contains_verbatim.
-(* C04_windows_contains_partial: what is left unproved: a verbatim prefix with nothing after it or followed by a
-   name without a root, and the two recorded findings -- the base of exactly two separators (D10) and the
+(* ... and for the bare verbatim prefix joined with names (WinVerbBare.v): base, implied root, the names *)
+Theorem C04_windows_contains_bare_verbatim : forall (a : list N) (k : wprefix) (p : list N),
+  wprefix_grammar a = Some (k, []) -> k_verbatim k = true -> vcomplete k ->
+  p <> [] -> w_scan (wspec p) O = None -> Forall (fun c => exists n, c = Normal n) (gcomps (wsep true) p) ->
+  w_push_checked a p = (w_push a p, None) /\ wspec (w_push a p) = wspec a ++ WC Root :: wspec p.
+Proof. exact w_push_checked_contains_bare_verbatim. Qed.
+Print Assumptions C04_windows_contains_bare_verbatim.
+(* C04_windows_contains_partial: what is left unproved: a bare verbatim prefix joined with a path that holds "." or
+   "..", a verbatim drive followed by a name without a root (not well-formed in Spec.wf_comps), and the two recorded findings -- the base of exactly two separators (D10) and the
    verbatim prefix named exactly "UNC" (D17): in both, appending a separator and a name spells a longer prefix.
    (A \\server with an empty share behaves the same way; it is not a well-formed path in Spec.wf_comps.)  Those
    are decided on every explored (base, p) pair by oracle_c04 itself, over the specification only
